@@ -1,7 +1,7 @@
 #!/bin/bash
 # tools/confirm_seed.sh <PROP> <a|b>   confirm a sub-agent's change in its scratch worktree:
 #  demo passes on the clean tree, fails with the patch; the repository suite passes with the patch.
-p="$1"; v="$2"; wt="/tmp/seed-$p"; out="/tmp/seed-$p-out"; log="$out/confirm_$v.log"
+p="$1"; v="$2"; wt="${SEEDPREFIX:-/tmp/seed}-$p"; out="${SEEDPREFIX:-/tmp/seed}-$p-out"; log="$out/confirm_$v.log"
 cd "$wt" || exit 2
 git checkout -- . >/dev/null 2>&1; git clean -fdq tests >/dev/null 2>&1
 cp "$out/seed_demo_$v.rs" "tests/seed_demo_$v.rs"
